@@ -448,10 +448,10 @@ def streams(tier, rng):
             "history_parse_outcome": Counter()}
     st_f = {"ops": Counter(), "history_length": Counter(), "tree_depth": Counter(), "outcome": Counter(),
             "history_parse_outcome": Counter()}
-    hist = gen_hist_cases(rng, 1500 if quick else 12000, True, st_h)
-    free = gen_hist_cases(rng, 1000 if quick else 10000, False, st_f)
+    hist = gen_hist_cases(rng, 1500 if quick else 60000, True, st_h)
+    free = gen_hist_cases(rng, 1000 if quick else 40000, False, st_f)
     b2 = []
-    for _ in range(300 if quick else 3000):
+    for _ in range(300 if quick else 6000):
         b2.append("(build2 %s)" % gen_cmd.cmd_sx(gen_tree(rng, want_subs=gen_cmd.chance(rng, 0.8))))
     return [
         Stream("history", hist, oracle=make_oracle(st_h), area="reentrancy", project=project, nontrivial=nontrivial,
@@ -464,15 +464,21 @@ def streams(tier, rng):
 
 
 TECHNIQUE = ("Coq proof (idempotence of the build steps, normal-form invariance of the in-place mutations for every "
-             "operation history) + extracted-model/implementation correspondence on operation histories")
-LEVEL_TEXT = ("Machine-checked theorems (Coq 8.16, closed under the global context) about a stateful model of one "
-              "Command value mutated in place by try_get_matches_from_mut / build / render_help / render_usage / clone: "
-              "the build steps are idempotent and never re-run behind the Built flag, every operation preserves the "
-              "normal form of the tree (the tree as it would be had every subcommand been reached under the same program "
-              "name), for every command and every finite history.  The model is tied to clap_builder by running the "
-              "extracted model and the real crate on the same generated histories on every check (results and the "
-              "observable names / argument ids of every node after every step), and an independent python oracle "
-              "compares the reused, fresh, cloned, pre-built and by-value results of the real crate.")
-LEVEL_NOTE = ("Trusted: Coq kernel, extraction, OCaml driver, Rust harness, generators, the shared parser model. "
-              "Rendered message text is compared on the implementation only.  Known finding: after build() "
-              "`help help <sub>` is DisplayHelp instead of InvalidSubcommand.")
+             "operation history, the parser reads subcommands only through their signatures, history independence of the "
+             "parser result) + extracted-model/implementation correspondence on operation histories")
+LEVEL_TEXT = ("Machine-checked theorems (Coq 8.16) about a stateful model of one Command value mutated in place by "
+              "try_get_matches_from_mut / build / render_help / render_long_help / render_usage / clone and by the "
+              "subcommand building hidden in did_you_mean_flag: the build steps are idempotent and never re-run behind "
+              "the Built flag; naming a command commutes with building it; every operation except build() preserves the "
+              "normal form of the tree to every depth, for every command and every finite history; the parser of a level "
+              "reads its subcommands only through names/aliases/flags and _build_subcommand, so the parser result, the "
+              "names of every visited level and the reported error after any history equal those of the fresh definition "
+              "(C11_history_independence).  The statement about definitions built beforehand is refuted by a witness "
+              "(known finding).  The model is tied to clap_builder by running the extracted model and the real crate on "
+              "the same generated histories on every check (results and the observable names / argument ids of every node "
+              "after every step), and an independent python oracle compares the reused, fresh, cloned, pre-built and "
+              "by-value results and rendered messages of the real crate.")
+LEVEL_NOTE = ("15 theorems closed under the global context, 4 use functional_extensionality_dep.  Trusted: Coq kernel, "
+              "extraction, OCaml driver, Rust harness, generators, the shared parser model.  Differential only: global-value "
+              "propagation after the parser, rendered message text, histories containing build().  Known finding: after "
+              "build() `help help <sub>` is DisplayHelp instead of InvalidSubcommand.")
